@@ -7,7 +7,7 @@ import time
 
 HERE = os.path.dirname(os.path.abspath(__file__))
 VERIF = os.path.dirname(HERE)
-EVID = os.path.join(VERIF, 'evidence')
+EVID = os.environ.get('VERIF_EVIDENCE_DIR') or os.path.join(VERIF, 'evidence')
 REPLAYS = os.path.join(EVID, 'replays')
 KNOWN = os.path.join(VERIF, 'known_findings.json')
 
@@ -80,7 +80,7 @@ class Check:
         replay['property'] = self.prop
         replay['signature'] = signature
         replay['what'] = what
-        if n < 50:
+        if n < 50 or signature not in {v[0] for v in self.violations}:
             with open(path, 'w') as f:
                 json.dump(replay, f, indent=1, default=str)
         self.violations.append((signature, what, path))
